@@ -624,18 +624,28 @@ func (c *Client) submitPersisted(packet net.Buffers, out outbound) (exchange <-c
 	// submit
 	if hasBacklog {
 		// buffered channel won't block
-		done <- fmt.Errorf("%w; PUBLISH enqueued", ErrDown)
+		sendUnlessClosed(done, fmt.Errorf("%w; PUBLISH enqueued", ErrDown))
 	} else {
 		err = c.writeBuffersNoWait(packet)
 		if err != nil {
 			// buffered channel won't block
-			done <- fmt.Errorf("%w; PUBLISH enqueued", err)
+			sendUnlessClosed(done, fmt.Errorf("%w; PUBLISH enqueued", err))
 		} else {
 			seq.submitN = seq.acceptN
 		}
 	}
 
 	return done, nil
+}
+
+// SendUnlessClosed passes err to an exchange channel from the outbound queue.
+// The read routine closes the channel once the broker acknowledges, which may
+// happen before the write of the PUBLISH returns.
+func sendUnlessClosed(done chan<- error, err error) {
+	defer func() {
+		recover() // send on closed channel: exchange completed
+	}()
+	done <- err
 }
 
 func (c *Client) applySeqNoAndEnqueue(packet net.Buffers, seqNo uint, out outbound) (done chan error, err error) {
